@@ -54,6 +54,41 @@ def assigns_local(inst, b, locals_, start=0):
     return None
 
 
+def assigned_just_before(inst, b, i, locals_, limit=16):
+    """is one of locals_ assigned on the straight-line chain ending right before statement i of block b, with no
+    read of it in between?  (walks back through blocks that have a single non-cleanup predecessor)"""
+    from ..prog import rv_operands, rv_places
+
+    def reads(s):
+        if s['k'] != 'assign':
+            return False
+        return any(o['k'] in ('copy', 'move') and o['p']['l'] in locals_ for o in rv_operands(s['rv'])) or \
+            any(p['l'] in locals_ for p in rv_places(s['rv']))
+    cur, idx = b, i
+    for _ in range(limit):
+        stmts = inst.blocks[cur]['stmts']
+        for k in range(idx - 1, -1, -1):
+            s = stmts[k]
+            if s['k'] == 'assign' and not s['p']['pr'] and s['p']['l'] in locals_:
+                return True
+            if reads(s):
+                return False
+        ps = [p for p in inst.pred(cur) if not inst.blocks[p].get('cleanup')]
+        if len(ps) != 1:
+            return False
+        p = ps[0]
+        t = inst.term(p)
+        if t['k'] == 'switch':
+            return False
+        if t['k'] == 'call':
+            if not t['dest']['pr'] and t['dest']['l'] in locals_:
+                return True
+            if any(a['k'] in ('copy', 'move') and a['p']['l'] in locals_ for a in t['args']):
+                return False
+        cur, idx = p, len(inst.blocks[p]['stmts'])
+    return False
+
+
 def reads_local(inst, b, locals_, start=0):
     """index of the first statement (from `start`) in block b that reads one of locals_
     (as an operand or through a borrow); terminator counts as len(stmts)"""
@@ -181,9 +216,15 @@ def run(ctx):
             except KeyError as e:
                 rep.anchor_missing(str(e), cfg)
                 continue
-            pos = user_locals(inst, 'pos')
+            from .. import mm as _mm
+            roles = _mm.memo_roles(inst) if fname == 'find_small_imp' else None
+            pos = {roles['pos']} if roles else user_locals(inst, 'pos')
             if not pos:
-                rep.anchor_missing(f'variable `pos` in {fname}', cfg)
+                # (large-period loop: the one integer local that is updated from its own previous value)
+                r2 = _mm._memo_roles(inst)
+                pos = {r2['pos']} if r2 else set()
+            if not pos:
+                rep.anchor_missing(f'the position variable of {fname}', cfg)
                 continue
             # region controlled by is_effective()
             region = set()
@@ -220,9 +261,9 @@ def run(ctx):
                     'no bound re-check after `pos += pre.find(..)` (window may exceed the haystack)')
             if fname != 'find_small_imp':
                 continue
-            shift = user_locals(inst, 'shift')
+            shift = {roles['shift']} if roles else user_locals(inst, 'shift')
             if not shift:
-                rep.anchor_missing('variable `shift` in find_small_imp', cfg)
+                rep.anchor_missing('the shift-memory variable of find_small_imp', cfg)
                 continue
             loops = inst.natural_loops()
             # outermost loop containing a pos assignment
@@ -242,7 +283,9 @@ def run(ctx):
                     ok, where_read = True, None
                     r0 = reads_local(inst, b, shift, i + 1)
                     a0 = assigns_local(inst, b, shift, i + 1)
-                    if r0 is not None and (a0 is None or r0 <= a0):
+                    if assigned_just_before(inst, b, i, shift):
+                        pass        # `shift = ..; pos += ..` in this order: the same pairing, written the other way round
+                    elif r0 is not None and (a0 is None or r0 <= a0):
                         ok, where_read = False, b
                     elif a0 is None:
                         stack, seen = list(inst.succ(b)), set()
@@ -263,33 +306,15 @@ def run(ctx):
                             detail='`shift` is re-assigned before it is read again on every path' if ok else
                             f"`pos` changes and bb{where_read} then reads the old `shift` (stale Two-Way memory: a prefix is assumed matched at a position it was not verified for)")
             rep.floor(f'pos-assignments-in-small-loop[{cfg}]', n_pos_assign, 4)
-            # non-zero shift only where pos advanced by period (last parameter)
-            period_arg = inst.arg_count
-            for b in inst.rpo():
-                for i, s in enumerate(inst.blocks[b]['stmts']):
-                    if s['k'] == 'assign' and not s['p']['pr'] and s['p']['l'] in shift:
-                        srcs = sources(inst, s['rv']['op']) if s['rv']['k'] == 'use' else [('rv', b, s['rv'])]
-                        if all(x[0] == 'const' and x[1].get('v') == 0 for x in srcs):
-                            continue
-                        # the pos assignment reaching here must add `period`
-                        ok = False
-                        # look backwards in the dominating chain for the nearest pos assignment
-                        cand = [bb for bb in inst.rpo() if inst.dominates(bb, b)]
-                        for bb in reversed(cand):
-                            found = False
-                            for s2 in inst.blocks[bb]['stmts']:
-                                if s2['k'] == 'assign' and not s2['p']['pr'] and s2['p']['l'] in pos:
-                                    d = derive.derives(P, inst, s2['rv'].get('op', {'k': 'const'})) if s2['rv']['k'] == 'use' else None
-                                    found = True
-                                    if d and any(r[0] == 'arg' and r[1] == period_arg for r in d.roots):
-                                        ok = True
-                            if found:
-                                break
-                        rep.add('SHIFT-PAIR/nonzero-memory-only-after-period-step', "find_small_imp nonzero shift-assignment", ok,
-                                where=s['loc'], cfg=cfg,
-                                detail='`shift` set non-zero right after `pos += period`' if ok else
-                                '`shift` set to a non-zero value although `pos` did not advance by `period`')
+            # "non-zero memory only right after a move by `period`, and at most len - period of it" is the MEMO transfer
+            # obligation of the E2 engine (decided per back edge from the abstract state: independent of statement order)
         # ---------------- PRE-ADAPT (shared with C13 LIN-3) -- re-run those obligations here
+    from . import e2common
+    msites, _, merrs = e2common.root_table(ctx, cfgs, r'^arch::all::twoway::(Finder::find|FinderRev::rfind)$|^memmem::Finder::<.*>::find$', ('MEMO',))
+    for cfg_, root_, err_ in merrs:
+        rep.add('E2-ROOT', root_, False, cfg=cfg_, detail=err_.splitlines()[0][:300])
+    pk = e2common.emit(rep, msites, [])
+    rep.floor('MEMO-sites', pk.get('MEMO', 0), 2)
     sub = c13.run(ctx)
     for o in sub.obs:
         if o.rule.startswith('LIN-3'):
